@@ -271,7 +271,7 @@ def run(ctx):
         by_name = {u.username: u for u in users}
         sessions = {}
 
-        async def read_status(b, g, quiescent=False):
+        async def read_status(b, g, quiescent=False, as_listing=False):
             """GET the batch / job group as its owner and hand the answer to the C06 'reported' oracle."""
             owner = w.sql('SELECT user FROM batches WHERE id = %s AND NOT deleted', (b,))
             if not owner or owner[0]['user'] not in by_name:
@@ -280,6 +280,10 @@ def run(ctx):
             if u.username not in sessions:
                 sessions[u.username] = w.raw_session(u)
             path = f'/api/v1alpha/batches/{b}' if g == 0 else f'/api/v1alpha/batches/{b}/job-groups/{g}'
+            listing = as_listing and not quiescent
+            if listing:
+                # the same record through the listing endpoint (children of group g)
+                path = f'/api/v1alpha/batches/{b}/job-groups/{g}/job-groups'
             t_sent = loop.time()
             try:
                 resp = await sessions[u.username].request(
@@ -294,6 +298,12 @@ def run(ctx):
                 raise
             except Exception:  # pylint: disable=broad-except
                 return
+            if listing:
+                for child in rep.get('job_groups') or []:
+                    if isinstance(child, dict) and child.get('job_group_id') is not None:
+                        ctx.probe('status_reported_through_listing')
+                        o.check_reported(b, child['job_group_id'], child, t_sent)
+                return
             o.check_reported(b, g, rep, t_sent, quiescent=quiescent)
 
         async def status_reader():
@@ -307,7 +317,7 @@ def run(ctx):
                                'ORDER BY job_groups.batch_id, job_groups.job_group_id')
                 if groups:
                     k = groups[r.draw(len(groups))]
-                    await read_status(k['b'], k['g'])
+                    await read_status(k['b'], k['g'], as_listing=r.draw(4) == 3)
         reader = asyncio.create_task(status_reader(), name='status-reader')
         done, pending = await asyncio.wait(clients, timeout=400)
         for t in done:
